@@ -4,10 +4,11 @@
 //! [`Decoder`](crate::Decoder). An external monitor can read it to measure
 //! the work done by a decoding call and can set a limit above which the
 //! next step panics, which turns "does not terminate" into an observable
-//! event. The counter is process-global and meant to be used from a single
-//! thread at a time.
+//! event. A stack low-water mark, updated at the same places,
+//! does the same for unbounded recursion. Both are process-global and meant
+//! to be used from a single thread at a time.
 
-use core::sync::atomic::{AtomicU64, Ordering};
+use core::sync::atomic::{AtomicU64, AtomicUsize, Ordering};
 
 /// Number of primitive input accesses since the last reset.
 pub static STEPS: AtomicU64 = AtomicU64::new(0);
@@ -17,6 +18,27 @@ pub static LIMIT: AtomicU64 = AtomicU64::new(0);
 
 /// Message prefix of the panic raised when `LIMIT` is exceeded.
 pub const LIMIT_MSG: &str = "minicbor_verif: step limit exceeded";
+
+/// Lowest stack address seen by a step since the last `stack_reset`
+/// (the stack grows downwards, so base - `STACK_LOW` is the depth reached).
+pub static STACK_LOW: AtomicUsize = AtomicUsize::new(usize::MAX);
+
+/// If non-zero, a step at a stack address below this one panics.
+pub static STACK_FLOOR: AtomicUsize = AtomicUsize::new(0);
+
+/// Message prefix of the panic raised when the stack goes below `STACK_FLOOR`.
+pub const STACK_MSG: &str = "minicbor_verif: stack depth limit exceeded";
+
+/// Forget the low-water mark and set a new floor (0 = none).
+pub fn stack_reset(floor: usize) {
+    STACK_LOW.store(usize::MAX, Ordering::Relaxed);
+    STACK_FLOOR.store(floor, Ordering::Relaxed)
+}
+
+/// The lowest stack address a step has run at since the last `stack_reset`.
+pub fn stack_low() -> usize {
+    STACK_LOW.load(Ordering::Relaxed)
+}
 
 /// Reset the step counter and set a new limit (0 = unlimited).
 pub fn reset(limit: u64) {
@@ -31,6 +53,16 @@ pub fn steps() -> u64 {
 
 #[inline]
 pub(crate) fn step() {
+    let probe = 0u8;
+    let sp = core::ptr::addr_of!(probe) as usize;
+    if sp < STACK_LOW.load(Ordering::Relaxed) {
+        STACK_LOW.store(sp, Ordering::Relaxed);
+        let f = STACK_FLOOR.load(Ordering::Relaxed);
+        if f != 0 && sp < f {
+            STACK_FLOOR.store(0, Ordering::Relaxed);
+            panic!("{}", STACK_MSG)
+        }
+    }
     let n = STEPS.load(Ordering::Relaxed) + 1;
     STEPS.store(n, Ordering::Relaxed);
     let l = LIMIT.load(Ordering::Relaxed);
